@@ -8,6 +8,7 @@ CONSTANTS
   VLo = @VLO@
   VHi = @VHI@
   Seed = @SEED@
+  GLMin = @GLMIN@
   GLMax = @GLMAX@
   GLAll = @GLALL@
 INVARIANTS Emit
